@@ -10,6 +10,8 @@
    hold for EVERY extension outside [0,ny) x [0,nx), so no cost depends on an out-of-range read. *)
 From Coq Require Import ZArith List Bool QArith.
 From Pandora Require Import Model.MatchingCost Spec.Cost Proofs.MatchingCostP Proofs.PopcountP Proofs.CensusP Proofs.ZnccP.
+From Pandora Require Import Model.PyArith Proofs.PointIntervalGenP.
+From Pandora Require Gen.PointInterval.
 Import ListNotations.
 Open Scope Z_scope.
 
@@ -158,6 +160,122 @@ Theorem C02_measure_metadata : forall inp,
   /\ cmax Census inp = i_w inp * i_w inp /\ cmax Zncc inp = 1.
 Proof. intros. repeat split. Qed.
 
+(* ------------------------------------------------------------------------------------------------------------
+   T-gen tie of the index arithmetic.  Gen/PointInterval.v (module G below) is REGENERATED at every run from the
+   source text of AbstractMatchingCost.point_interval / get_min_max_from_grid / cv_masked and of the loops over
+   the disparities of SadSsd / Census / Zncc.compute_cost_volume (translator/gen_point_interval.py, Python ast,
+   fail-closed).  A disparity d is the integer D = d * s (s = subpix); Model/PyArith.v gives the scaled reading
+   of ceil / floor / int / % / * used by the translation.  The theorems below are per-run obligations: they are
+   re-checked against the text of the day. *)
+
+(* the scaled operations are the operations of Q / Qround on x = X / s (s = Zpos p): the encoding is not assumed *)
+Theorem C02_gen_pyarith_sound : forall (p : positive) (X Y n : Z),
+  (qreal p (py_real (Zpos p) n) == inject_Z n)%Q
+  /\ py_floor (Zpos p) X = Qround.Qfloor (qreal p X)
+  /\ py_ceil (Zpos p) X = Qround.Qceiling (qreal p X)
+  /\ py_int (Zpos p) X = Qtrunc (qreal p X)
+  /\ (0 < Y -> (qreal p (py_mod X Y) == qreal p X - qreal p Y * inject_Z (Qround.Qfloor (qreal p X / qreal p Y)))%Q)
+  /\ (qreal p (py_mul_ri X n) == qreal p X * inject_Z n)%Q
+  /\ (qreal p (X + Y) == qreal p X + qreal p Y)%Q /\ (qreal p (X - Y) == qreal p X - qreal p Y)%Q
+  /\ (X < Y <-> (qreal p X < qreal p Y)%Q)
+  /\ (0 < Y -> py_int_div X Y = Qtrunc (inject_Z X / inject_Z Y)).
+Proof.
+  intros p X Y n.
+  split; [apply py_real_sound|]. split; [apply py_floor_sound|]. split; [apply py_ceil_sound|].
+  split; [apply py_int_sound|]. split; [apply py_mod_sound|]. split; [apply py_mul_ri_sound|].
+  split; [apply py_add_sub_sound|]. split; [apply py_add_sub_sound|]. split; [apply py_lt_sound|].
+  apply py_int_div_sound.
+Qed.
+
+(* the generated point_interval IS the model's, for every subpix >= 1, widths and disparity *)
+Theorem C02_gen_point_interval_eq_model : forall s nxl nxr D, 0 < s ->
+  G.point_interval s nxl nxr D = point_interval s nxl nxr D.
+Proof. exact gen_point_interval_eq. Qed.
+
+(* one iteration of the loop over the disparities of the three compute_cost_volume, as generated: the shifted
+   right image is int((disp % 1) * subpix) = D mod s, the ranges are point_interval of (left, shifted right [i],
+   disp), the columns written in the plane are the left range (zncc: cut 2 * offset before its end, p_std; the
+   right range q_std likewise); census calls point_interval on the two census transforms, the others on the
+   images *)
+Theorem C02_gen_loops_eq_model : forall s w nxl nxr D, 0 < s ->
+  G.sad_ssd_loop s nxl nxr D
+  = (let pq := point_interval s nxl (nxr (i_right s D)) D in (i_right s D, pq, fst pq))
+  /\ G.census_loop s nxl nxr D
+     = (let pq := point_interval s nxl (nxr (i_right s D)) D in (i_right s D, pq, fst pq))
+  /\ (0 < w -> Z.odd w = true ->
+      G.zncc_loop s w nxl nxr D =
+      let pq := point_interval s nxl (nxr (i_right s D)) D in
+      let p0 := fst (fst pq) in let p1 := snd (fst pq) in let q0 := fst (snd pq) in let q1 := snd (snd pq) in
+      let off := offset w in
+      (i_right s D, pq, (p0, Z.max p0 (p1 - 2 * off)),
+       ((p0, Z.max p0 (p1 - 2 * off)), (q0, Z.max q0 (q1 - 2 * off)))))
+  /\ G.sad_ssd_loop_on_transformed = (false, false) /\ G.census_loop_on_transformed = (true, true)
+  /\ G.zncc_loop_on_transformed = (false, false).
+Proof.
+  intros s w nxl nxr D Hs.
+  split; [exact (gen_sad_ssd_loop_eq s nxl nxr D Hs)|]. split; [exact (gen_census_loop_eq s nxl nxr D Hs)|].
+  split; [exact (gen_zncc_loop_eq s w nxl nxr D Hs)|]. exact gen_loops_on_transformed.
+Qed.
+
+(* one iteration of the first loop of cv_masked, as generated: shifted image, ranges, right mask min(1, i_right)
+   and plane dsp = int((disp - dmin) * subpix) with dmin = the minimum of the minimum grid -- the values
+   [mask_step] uses; the test of the second loop is the one of [mask_interval] *)
+Theorem C02_gen_cv_masked_eq_model : forall s ny nx g h nxl nxr r c D, 0 < s ->
+  G.cv_masked_loop s ny nx g h nxl nxr D
+  = (i_right s D, point_interval s nxl (nxr (i_right s D)) D, Z.min 1 (i_right s D),
+     dsp_index s (grid_min ny nx g) D)
+  /\ G.cv_masked_out_of_range s g h r c D = ((D <? g r c * s) || (h r c * s <? D))
+  /\ G.get_min_max_from_grid ny nx g h = (grid_min ny nx g, grid_max ny nx h).
+Proof.
+  intros s ny nx g h nxl nxr r c D Hs. split; [exact (gen_cv_masked_loop_eq s ny nx g h nxl nxr D Hs)|].
+  split; [exact (gen_out_of_range_eq s g h r c D)|reflexivity].
+Qed.
+
+(* C02_point_interval_spec restated on the GENERATED loops (widths of the shifted images: nx, and nx - 1 for a
+   fractional shift, [shift_width]; for census nx stands for the width of the transforms): the shifted image is
+   D mod s in [0, s); the columns written are the left range; left column c is in it iff floor(c + d) and
+   ceil(c + d) are columns of the right image; the matched right column is c + floor d; both ranges have the same
+   length (the slice assignment cannot fail to broadcast), start at a non-negative index and the left one ends
+   inside the image (no wrap-around of a negative slice bound) *)
+Theorem C02_gen_point_interval_spec : forall s nx D c, 0 < s -> 0 <= c < nx ->
+  loop_spec s nx D c (G.sad_ssd_loop s nx (shift_width nx) D)
+  /\ loop_spec s nx D c (G.census_loop s nx (shift_width nx) D).
+Proof. exact gen_point_interval_spec. Qed.
+
+(* the same for the generated zncc loop, plus: the columns written = p_std = the columns of the left range whose
+   whole window (2 * offset further) is still in the range; q_std starts with the right range and has the length
+   of p_std *)
+Theorem C02_gen_zncc_loop_spec : forall s w nx D c, 0 < s -> 0 < w -> Z.odd w = true -> 0 <= c < nx ->
+  let '(i, pq, wr, std) := G.zncc_loop s w nx (shift_width nx) D in
+  loop_spec s nx D c (i, pq, fst pq)
+  /\ fst wr = fst (fst pq) /\ wr = fst std
+  /\ (fst wr <= c < snd wr <-> fst (fst pq) <= c /\ c + 2 * offset w < snd (fst pq))
+  /\ fst (snd std) = fst (snd pq)
+  /\ snd (fst std) - fst (fst std) = snd (snd std) - fst (snd std).
+Proof. exact gen_zncc_loop_spec. Qed.
+
+(* C02_dsp_index restated on the generated loop of cv_masked: on sample k of the axis that starts at the minimum
+   of the minimum grid, the plane that receives the masks is k, the ranges are the ones above, and the right
+   mask is the plain one for an integer disparity, the two-column one otherwise *)
+Theorem C02_gen_cv_masked_loop_spec : forall s ny nx g h k c, 0 < s -> 0 <= c < nx ->
+  let dmin := grid_min ny nx g in
+  let D := disp_scaled s dmin k in
+  let '(i, pq, im, dsp) := G.cv_masked_loop s ny nx g h nx (shift_width nx) D in
+  dsp = k
+  /\ loop_spec s nx D c (i, pq, fst pq)
+  /\ (im = 0 <-> D mod s = 0) /\ (im = 1 <-> D mod s <> 0).
+Proof. exact gen_cv_masked_loop_spec. Qed.
+
+(* Non-vacuity of the generated definitions: subpix 4, 10 columns, d = -9/4 (D = -9): shifted image 3, left
+   range [3, 10), right range [0, 7) of the 9-column shifted image; d = 12 (beyond the image): empty ranges
+   [0, 0) and [12, 12), no negative bound *)
+Example C02_gen_example :
+  G.sad_ssd_loop 4 10 (shift_width 10) (-9) = (3, ((3, 10), (0, 7)), (3, 10))
+  /\ G.point_interval 4 10 10 48 = ((0, 0), (12, 12))
+  /\ G.zncc_loop 4 5 10 (shift_width 10) (-9) = (3, ((3, 10), (0, 7)), (3, 6), ((3, 6), (0, 3)))
+  /\ G.cv_masked_loop 4 1 1 (fun _ _ => -3) (fun _ _ => 2) 10 (shift_width 10) (-9) = (3, ((3, 10), (0, 7)), 1, 3).
+Proof. vm_compute. repeat split. Qed.
+
 (* Non-vacuity: a 3x5 pair, window 3, subpix 2, a nodata pixel in the corner of the right mask,
    per-pixel interval grids.  At the centre row, column 2: the cost exists at d = +1/2 (SAD 9/2, SSD
    17/4) and at d = 0, is NaN at d = -1/2 (the nodata pixel is in the right window); at column 3 the
@@ -199,3 +317,10 @@ Print Assumptions C02_zncc_cost_le_cmax.
 Print Assumptions C02_point_interval_spec.
 Print Assumptions C02_dsp_index.
 Print Assumptions C02_measure_metadata.
+Print Assumptions C02_gen_pyarith_sound.
+Print Assumptions C02_gen_point_interval_eq_model.
+Print Assumptions C02_gen_loops_eq_model.
+Print Assumptions C02_gen_cv_masked_eq_model.
+Print Assumptions C02_gen_point_interval_spec.
+Print Assumptions C02_gen_zncc_loop_spec.
+Print Assumptions C02_gen_cv_masked_loop_spec.
